@@ -317,6 +317,11 @@ var lookups = ev.Register(&ev.P[lookCase]{
 			if j == nil || j.GetName() != want || j.IsJie() != jieWant || j.IsQi() == jieWant {
 				return fmt.Errorf("%s wrong, model says %s (jie=%v)", what, want, jieWant)
 			}
+			// the term named for a day falls on that civil day: whatever moment the object carries (the query moment
+			// today; the term instant would do as well), it lies on the query's civil day
+			if js := j.GetSolar(); js == nil || js.GetYear() != t.Y || js.GetMonth() != t.M || js.GetDay() != t.D {
+				return fmt.Errorf("%s = %s carries the moment %v, which is not on the query day", what, want, js)
+			}
 			return nil
 		}
 		for _, e := range []error{cur("GetCurrentJieQi", l.GetCurrentJieQi(), wantAll, wantJie != ""), cur("GetCurrentJie", l.GetCurrentJie(), wantJie, true), cur("GetCurrentQi", l.GetCurrentQi(), wantQi, false)} {
